@@ -246,14 +246,31 @@ def pool_map(fn, args, nproc=None):
     gc.collect()
     res = [None] * len(args)
     lost = []
+    stall = float(os.environ.get("VERIF_STALL_S", "2400"))
     with cf.ProcessPoolExecutor(nproc, mp_context=ctx) as ex:
         futs = {ex.submit(_pool_entry, a): i for i, a in enumerate(args)}
-        for f in cf.as_completed(futs):
-            i = futs[f]
-            try:
-                res[i] = f.result()
-            except BrokenProcessPool:
-                lost.append(i)
+        pending = set(futs)
+        while pending:
+            done, pending = cf.wait(pending, timeout=stall, return_when=cf.FIRST_COMPLETED)
+            if not done:
+                # no task finished for `stall` seconds: a kernel that never returns cannot be interrupted from inside, so
+                # the workers are killed and the unfinished tasks are recorded as inconclusive (never as violations)
+                for p in list(getattr(ex, "_processes", {}).values()):
+                    try:
+                        p.kill()
+                    except Exception:  # noqa
+                        pass
+                for f in pending:
+                    r = Recorder()
+                    r.flaky.append(f"task {_short_repr(args[futs[f]])} did not finish: no task completed within {stall:.0f} s (inconclusive)")
+                    res[futs[f]] = ("ok", r)
+                break
+            for f in done:
+                i = futs[f]
+                try:
+                    res[i] = f.result()
+                except BrokenProcessPool:
+                    lost.append(i)
     for i in sorted(lost):
         with cf.ProcessPoolExecutor(1, mp_context=ctx) as ex:
             try:
